@@ -14,7 +14,7 @@ from . import smt
 
 def main():
     modname = sys.argv[1]
-    only = set(sys.argv[2:])
+    only = set(a for a in sys.argv[2:] if not a.startswith("-"))
     mod = importlib.import_module(modname)
     ft = FuncTable()
     models = Models()
@@ -39,7 +39,11 @@ def main():
             traceback.print_exc()
             continue
         t1 = time.time()
-        res = smt.discharge(eng.base_axioms(), eng.obligations, 10000)
+        flt = [a.split("=", 1)[1] for a in sys.argv if a.startswith("--only=")]
+        if flt:
+            eng.obligations = [o for o in eng.obligations if any(f in o.oid for f in flt)]
+        to = [int(a.split("=", 1)[1]) for a in sys.argv if a.startswith("--to=")]
+        res = smt.discharge(eng.base_axioms(), eng.obligations, to[0] if to else 10000)
         t2 = time.time()
         bad = [(o, r) for o, r in zip(eng.obligations, res) if r[0] != "proved"]
         print("%-40s paths=%d obligations=%d proved=%d symex=%.1fs smt=%.1fs feas=%d" % (
